@@ -112,9 +112,7 @@ def ofR : R → Sexp
   | .pair u xs => .list [.atom "pair", ofNat u, .list (xs.map ofItem)]
   | .tpair raw xs => .list [.atom "tpair", .list (raw.map ofItem), .list (xs.map ofItem)]
 
-def ofScope : ScopeRes → Sexp
-  | .chain a => .list (.atom "chain" :: a.map ofNodeRef)
-  | .bare n => .list [.atom "bare", ofNodeRef n]
+def ofScope (a : List Node) : Sexp := .list (.atom "chain" :: a.map ofNodeRef)
 
 def clsQuery (names : List String) (e : E) : Bool := names.contains e.tag.cls
 
